@@ -252,3 +252,22 @@ Definition check_sd (k : case_sd) : bool :=
   vsclose (ks_tr k) (sd_trace g p (ks_step k) (ks_tol k) (ks_n k) s0)
   && vclose (ks_fin k) (fst (iter (ks_n k) (sd_step g p (ks_step k) (ks_tol k)) s0))
   && splits_ok (ks_split k) (fst (iter (ks_n k) (sd_step g p (ks_step k) (ks_tol k)) s0)).
+
+(* ---- Douglas-Rachford primal-dual ---- *)
+Record case_dr := { kr_nc : nat; kr_Ms : list qmat; kr_f : fk; kr_gs : list fk; kr_ls : option (list fk);
+                    kr_tau : Q; kr_sigma : list Q; kr_lam : list Q; kr_x : qvec; kr_n : nat;
+                    kr_tr : list qvec; kr_fin : qvec }.
+Fixpoint mk_drops (nc : nat) (Ms : list qmat) (gs : list fk) (ls : option (list fk)) (sig : list Q) : list (@drop Q) :=
+  match Ms, gs, sig with
+  | M :: Ms', g :: gs', s :: sig' =>
+      mk_drop (mop M) (madj nc M) (ccprox_of g s)
+              (match ls with Some (l :: _) => Some (ccprox_of l s) | _ => None end) s (length M)
+      :: mk_drops nc Ms' gs' (option_map (@tl _) ls) sig'
+  | _, _, _ => []
+  end.
+Definition check_dr (k : case_dr) : bool :=
+  let ops := mk_drops (kr_nc k) (kr_Ms k) (kr_gs k) (kr_ls k) (kr_sigma k) in
+  let pf := prox_of (kr_f k) (kr_tau k) in
+  let lam := lam_of (kr_lam k) in
+  vsclose (kr_tr k) (dr_trace pf (kr_tau k) lam ops (kr_n k) 0 (dr_init ops (kr_x k)))
+  && vclose (kr_fin k) (dr_run pf (kr_tau k) lam ops (kr_n k) (kr_x k)).
